@@ -3,12 +3,12 @@
 package args
 
 import (
-	"os"
 	"fmt"
 	"go/ast"
 	"go/constant"
 	"go/token"
 	"go/types"
+	"os"
 	"path/filepath"
 	"sort"
 	"strings"
@@ -468,11 +468,11 @@ func (f *fn) exprDeps(e ast.Expr) (map[types.Object]bool, bool) {
 
 // check is an argument-check panic site.
 type check struct {
-	call  *ast.CallExpr
-	cname string
-	conds []ast.Expr
-	data  bool // some controlling condition reads data: not an argument check
-	deps  map[types.Object]bool
+	call   *ast.CallExpr
+	cname  string
+	conds  []ast.Expr
+	data   bool // some controlling condition reads data: not an argument check
+	deps   map[types.Object]bool
 	inLoop bool
 }
 
@@ -979,7 +979,7 @@ func analyse(res *core.Result, pkg *packages.Package, fd *ast.FuncDecl, errs map
 			Rule: "ARGS.complete",
 			Key:  fmt.Sprintf("ARGS.complete|%s|%s", f.name, p.Name()),
 			Pos:  core.Pos(fd.Pos()), Func: f.name,
-			Msg:  fmt.Sprintf("parameter %q (%s) does not occur in the condition of any argument check", p.Name(), p.Type()),
+			Msg: fmt.Sprintf("parameter %q (%s) does not occur in the condition of any argument check", p.Name(), p.Type()),
 		})
 	}
 	if len(res.Samples) < 6 {
@@ -1032,7 +1032,7 @@ func (f *fn) checkQuery(reach []bool) {
 			Rule: "ARGS.query",
 			Key:  fmt.Sprintf("ARGS.query|%s|%s", f.name, what),
 			Pos:  core.Pos(n.Pos()), Func: f.name,
-			Msg:  fmt.Sprintf("workspace query (lwork == -1) path %s; a query must touch nothing but work[0]", what),
+			Msg: fmt.Sprintf("workspace query (lwork == -1) path %s; a query must touch nothing but work[0]", what),
 		})
 	}
 	for _, w := range f.writeSites(true) {
@@ -1071,7 +1071,6 @@ func (f *fn) checkQuery(reach []bool) {
 }
 
 var _ = sort.Strings
-
 
 // checkOptional: a slice parameter whose every length check is guarded by
 // the same boolean conjunct G (e.g. `wantv && len(v) < ...`) is optional
